@@ -290,6 +290,11 @@ async fn run_case(w: &mut Worker, c: &Case, tname: &str) -> Outcome {
     let (r, mut wr) = s.into_split();
     let rx = spawn_reader(r);
     let frames = rx.frames.clone();
+    let closed0 = rx.closed.clone();
+    let tn = tname.to_string();
+    // "gone": the unit closed the connection, or the connection's task panicked (a panicked established session keeps
+    // its write half open: live_sessions holds a clone of pdu_out_tx, so the writer task never ends and never closes)
+    let gone = move || closed0.load(SeqCst) || PANICS.lock().unwrap().iter().any(|(t, ..)| *t == tn);
     let closed = rx.closed.clone();
     let live_has = |w: &Worker| w.unit.live_keys().iter().any(|(a, _)| *a == IpAddr::V4(vaddr));
     // ---- set-up with well-formed bytes
@@ -312,36 +317,55 @@ async fn run_case(w: &mut Worker, c: &Case, tname: &str) -> Outcome {
     let mut aligned = true;
     let mut mp_bulks: Vec<bool> = vec![];
     let mut notes = vec![];
-    for ch in &c.chunks {
+    // the stream is written frame by frame as an RFC 4271 reader would cut it (length field, >= 19, complete), so that the
+    // barriers below sit between frames even when the case glues frames or trailing bytes into one chunk; what follows
+    // the first place where that reading fails is written as one piece
+    let stream: Vec<u8> = c.chunks.concat();
+    let mut pieces: Vec<Vec<u8>> = vec![];
+    let mut pos = 0usize;
+    while stream.len() - pos >= 19 {
+        let l = u16::from_be_bytes([stream[pos + 16], stream[pos + 17]]) as usize;
+        if l < 19 || pos + l > stream.len() { break; }
+        pieces.push(stream[pos..pos + l].to_vec());
+        pos += l;
+    }
+    if pos < stream.len() { pieces.push(stream[pos..].to_vec()); }
+    for ch in &pieces {
         let n_k = frames.lock().unwrap().iter().filter(|(t, _)| *t == 4).count();
         let n_b = w.collected.lock().unwrap().iter().filter(|u| matches!(u, Update::Bulk(_)) && update_id(u) != Some(w.by_id)).count();
         if c.split == 0 { let _ = wr.write_all(ch).await; } else { for piece in ch.chunks(c.split) { let _ = wr.write_all(piece).await; let _ = wr.flush().await; tokio::task::yield_now().await; } }
         let acc = if aligned { accepted_frame(ch) } else { None };
         if aligned && !(ch.len() >= 19 && u16::from_be_bytes([ch[16], ch[17]]) as usize == ch.len()) { aligned = false; }
-        let cl = closed.clone();
+        let cl = gone.clone();
         match acc {
             Some(1) if tst == 'A' || tst == 'S' => {
                 let f = frames.clone();
-                let got = wait_until(ARRIVE, || cl.load(SeqCst) || f.lock().unwrap().iter().filter(|(t, _)| *t == 4).count() > n_k).await;
-                if got && !closed.load(SeqCst) { let cl = closed.clone(); if wait_until(ARRIVE, || cl.load(SeqCst) || live_has(w)).await && live_has(w) { was_negotiated = true; tst = 'C'; } }
+                let got = wait_until(ARRIVE, || cl() || f.lock().unwrap().iter().filter(|(t, _)| *t == 4).count() > n_k).await;
+                if got && !gone() { let cl = gone.clone(); if wait_until(ARRIVE, || cl() || live_has(w)).await && live_has(w) { was_negotiated = true; tst = 'C'; } }
                 if !got { notes.push("barrier.open-timeout".into()); }
             }
             Some(4) if tst == 'C' => tst = 'E',
+            // Active with the delay-open timer running: a KEEPALIVE sends the FSM to Idle with the connection kept
+            Some(4) if tst == 'A' => tst = 'I',
+            // an UPDATE before any OPEN reaches the processor, which leaves its loop (no NegotiatedConfig): wait for that,
+            // else the frames behind it race with the processor's break
+            Some(2) if tst == 'A' || tst == 'I' => { if !wait_until(ARRIVE, || cl()).await { notes.push("barrier.update-before-open-timeout".into()); } }
             Some(2) if tst == 'E' => {
                 let col = w.collected.clone();
                 let by = w.by_id;
-                let got = wait_until(ARRIVE, || cl.load(SeqCst) || col.lock().unwrap().iter().filter(|u| matches!(u, Update::Bulk(_)) && update_id(u) != Some(by)).count() > n_b).await;
+                let got = wait_until(ARRIVE, || cl() || col.lock().unwrap().iter().filter(|u| matches!(u, Update::Bulk(_)) && update_id(u) != Some(by)).count() > n_b).await;
                 if !got { notes.push("barrier.bulk-timeout".into()); }
                 mp_bulks.push(has_mp(ch));
             }
-            Some(3) if c.debug && ch.len() < 21 => { wait_until(NOTIF_WAIT, || cl.load(SeqCst)).await; }
+            Some(3) if c.debug && ch.len() < 21 => { wait_until(NOTIF_WAIT, || cl()).await; }
             _ => {}
         }
     }
     // ---- end of input; the unit must end the session
     let _ = wr.shutdown().await;
-    let cl = closed.clone();
-    let ended = wait_until(WEDGE, || cl.load(SeqCst)).await;
+    let cl = gone.clone();
+    let ended = wait_until(WEDGE, || cl()).await;
+    let peer_told = closed.load(SeqCst);
     drop(wr);
     if c.st == 'A' && t_case.elapsed() > Duration::from_secs(8) { return discard("delay-open-timer"); }
     // ---- observations
@@ -389,7 +413,7 @@ async fn run_case(w: &mut Worker, c: &Case, tname: &str) -> Outcome {
         if !sites.is_empty() { d.push_str(&format!(" ; consequences: live={} withdraws={nw}", live as u8)); }
         format!("fail {d}")
     };
-    let imp = format!("tx={} rx={} live={} panic={}{} ## ended={} by={}", if tx.is_empty() { "-".into() } else { tx.join(",") }, if rxs.is_empty() { "-".into() } else { rxs.join(",") }, live as u8, panic_tok, if ended { "" } else { " wedged" }, ended as u8, by_ok as u8);
+    let imp = format!("tx={} rx={} live={} panic={}{} ## ended={} closed={} by={}", if tx.is_empty() { "-".into() } else { tx.join(",") }, if rxs.is_empty() { "-".into() } else { rxs.join(",") }, live as u8, panic_tok, if ended { "" } else { " wedged" }, ended as u8, peer_told as u8, by_ok as u8);
     let total: usize = c.chunks.iter().map(|x| x.len()).sum();
     Outcome { case, imp, oracle, nontrivial: total >= 19, notes, discard: false, panic_tok }
 }
@@ -576,6 +600,42 @@ fn gen_malformed(g: &mut Gen, debug: bool) -> (Case, Vec<String>) {
     (Case { debug, st, split, chunks }, vec![format!("malformed.kind{kind}.{st}"), format!("gen.log.{}", if debug { "debug" } else { "info" })])
 }
 
+/// The systematic part: every message type at every declared length, in every state, followed by end of input or by
+/// more traffic. (a) the canonical message cut to L bytes with the header saying L (19 <= L <= true length + 3, padded
+/// with zeroes beyond the true length), (b) the whole canonical message with the header saying L (0 <= L <= true + 3).
+fn sweep(debug: bool) -> Vec<(Case, Vec<String>)> {
+    let mut g = Gen { g: Rng::new(99), k: 50000 };
+    let canon: Vec<Vec<u8>> = vec![
+        hdr(1, &open_body(EXACT_ASN as u16, 90, &caps_param(&[cap(1, &[0, 1, 0, 1]), cap(65, &EXACT_ASN.to_be_bytes())]))),
+        hdr(2, &update_body(&[16, 10, 9], &attrs_std(), &[24, 10, 200, 1])),
+        notification(6, 2, &[1, 2]),
+        keepalive(),
+        hdr(5, &[0, 1, 0, 1]),
+        hdr(9, &[1, 2, 3]),
+    ];
+    let mut out = vec![];
+    for m in &canon {
+        let ty = m[18];
+        if debug && !(ty == 1 || ty == 3) { continue; }
+        for st in ['A', 'S', 'C', 'E'] {
+            for more in [false, true] {
+                for l in 0..=m.len() + 3 {
+                    for kind in 0..2 {
+                        if kind == 0 && l < 19 { continue; }
+                        let mut x = m.clone();
+                        if kind == 0 { x.resize(l, 0); }
+                        x[16..18].copy_from_slice(&(l as u16).to_be_bytes());
+                        let mut chunks = vec![x];
+                        if more { chunks.extend(completion(&mut g, st)); }
+                        out.push((Case { debug, st, split: 0, chunks }, vec![format!("sweep.type{ty}.{}.{st}.{}", if kind == 0 { "cut-to-declared" } else { "declared-only" }, if more { "more" } else { "eof" })]));
+                    }
+                }
+            }
+        }
+    }
+    out
+}
+
 fn m_ff() -> Vec<u8> { vec![0xFF; 16] }
 /// (variant site, case) — the kernel-checked counterexamples of `Props/BgpBytes.lean`, replayed first
 fn witnesses() -> Vec<(&'static str, Case)> {
@@ -608,10 +668,11 @@ fn main() {
     } else {
         let wit = witnesses();
         let mut g = Gen { g: Rng::new(args.seed), k: 100 };
-        let n = if args.thorough { 16000 } else { 1500 };
+        let n = if args.thorough { 160000 } else { 9000 };
         let mut info = vec![];
         let mut debug = vec![];
         for (_, c) in &wit { if c.debug { debug.push(c.clone()); } else { info.push(c.clone()); } }
+        for dbg in [false, true] { for (c, labels) in sweep(dbg) { for l in labels { *dist.entry(l).or_insert(0) += 1; } if dbg { debug.push(c); } else { info.push(c); } } }
         for i in 0..n {
             let dbg = i % 3 == 2;
             let (c, labels) = if i % 4 == 3 { gen_malformed(&mut g, dbg) } else { gen_structured(&mut g, dbg) };
@@ -638,6 +699,8 @@ fn main() {
         if o.discard { for n in &o.notes { rec.bump(n); } continue; }
         for n in &o.notes { rec.bump(n); }
         rec.bump(&format!("outcome.{}", if o.panic_tok != "-" { format!("panic.{}", o.panic_tok) } else if o.imp.contains("rx=-") { "ended-nothing-to-clean".to_string() } else if o.imp.contains("W live=0") { "ended-with-cleanup".to_string() } else { "other".to_string() }));
+        // what was observed: tokens the unit sent / emitted
+        if let Some(obs) = o.imp.split(" ## ").next() { for part in obs.split_whitespace().take(2) { if let Some((k, v)) = part.split_once('=') { if v != "-" { for t in v.split(',') { rec.bump(&format!("obs.{k}.{t}")); } } } } }
         rec.case(o.case, o.imp, o.oracle, o.nontrivial);
     }
     rec.finish(&args, t0.elapsed().as_secs_f64());
